@@ -395,27 +395,33 @@ Lemma claims_app : forall loc ex a b, claims loc ex (a ++ b) = claims loc ex a +
 Proof. intros. unfold claims. apply flat_map_app. Qed.
 
 Section Claim.
-(* contract of Matcher.sub (C11): the result is a path of the target pattern *)
-Hypothesis sub_matches : forall m m' q p, sub m m' q = Some p -> matches m' p = true.
+(* what is needed of Matcher.sub (C11): when a reference file of an earlier matcher is
+   mapped to p, p is a path of that matcher's l10n pattern *)
+Definition sub_into (pre : list mrec) (p : str) : Prop :=
+  forall m r q, In m pre -> m_ref m = Some r -> In q fs -> sub r (m_l10n m) q = Some p ->
+                matches (m_l10n m) p = true.
 
 Lemma first_claim_l10n : forall loc ex pre m0 post p,
+  sub_into pre p ->
   (forall m, In m pre -> matches (m_l10n m) p = false) ->
   In p (files loc ex (m_l10n m0)) ->
   first_claim (Some p) (claims loc ex (pre ++ m0 :: post)) = Some (l10n_info m0 p).
 Proof.
-  intros loc ex pre m0 post p Hpre Hp.
+  intros loc ex pre m0 post p Hsub Hpre Hp.
   rewrite claims_app, first_claim_app.
   assert (E : first_claim (Some p) (claims loc ex pre) = None).
   { apply first_claim_None. intro H. apply in_map_iff in H as [[k v] [Ek H]]. simpl in Ek. subst.
     apply claims_In in H as [m [Hm [[p' [Ek [_ Hp']]]|[r [q [Er [Ek [_ Hq]]]]]]]].
     - inversion Ek; subst. apply files_sound in Hp' as [_ [H2 _]]. rewrite (Hpre _ Hm) in H2. discriminate.
-    - symmetry in Ek. apply sub_matches in Ek. rewrite (Hpre _ Hm) in Ek. discriminate. }
+    - symmetry in Ek. apply files_sound in Hq as [Hq _].
+      pose proof (Hsub _ _ _ Hm Er Hq Ek) as Hx. rewrite (Hpre _ Hm) in Hx. discriminate. }
   rewrite E. change (m0 :: post) with ([m0] ++ post). rewrite claims_app, first_claim_app.
   unfold claims at 1. simpl. rewrite app_nil_r. unfold claims_of. rewrite first_claim_app.
   rewrite (first_claim_map_l10n (l10n_info m0)) by exact Hp. reflexivity.
 Qed.
 
 Lemma iter_locale_claim : forall f out pre m0 post p,
+  sub_into pre p ->
   iter_locale f = POk out ->
   pf_matchers f = pre ++ m0 :: post ->
   (forall m, In m pre -> matches (m_l10n m) p = false) ->
@@ -425,9 +431,9 @@ Lemma iter_locale_claim : forall f out pre m0 post p,
     In (Some p, r, mg, t) out <->
     (r = osub (m_l10n m0) (m_ref m0) p /\ mg = osub (m_l10n m0) (m_merge m0) p /\ t = m_test m0).
 Proof.
-  intros f out pre m0 post p H Ems Hpre Hfs Hmt Hex [W1 [W2 W3]] r mg t.
+  intros f out pre m0 post p Hsub H Ems Hpre Hfs Hmt Hex [W1 [W2 W3]] r mg t.
   rewrite (iter_locale_spec _ _ H), Ems.
-  rewrite first_claim_l10n; [| exact Hpre | apply files_complete; assumption].
+  rewrite first_claim_l10n; [| exact Hsub | exact Hpre | apply files_complete; assumption].
   unfold l10n_info. split.
   - intro E. inversion E. auto.
   - intros [-> [-> ->]]. reflexivity.
@@ -449,6 +455,7 @@ Qed.
 
 (* enumeration = lookup, for an existing localized file *)
 Lemma lookup_agrees_l10n : forall f out pre m0 post p,
+  sub_into pre p ->
   iter_locale f = POk out ->
   pf_locale f <> None ->
   pf_matchers f = pre ++ m0 :: post ->
@@ -458,15 +465,15 @@ Lemma lookup_agrees_l10n : forall f out pre m0 post p,
   excluded (pf_locale f) (pf_exclude f) p = false -> walkable (m_l10n m0) p ->
   forall e, In e out /\ ekey e = Some p <-> pf_match f p = Some e.
 Proof.
-  intros f out pre m0 post p H Hloc Ems Hpre Hpre' Hfs Hmt Hex W e.
+  intros f out pre m0 post p Hsub H Hloc Ems Hpre Hpre' Hfs Hmt Hex W e.
   assert (Hn : not_none (pf_locale f) = true) by (destruct (pf_locale f); [reflexivity | congruence]).
   unfold ProjectFiles.pf_match. rewrite Hex, andb_false_r, Ems, match_ms_skip by assumption.
   simpl. rewrite Hmt, Hn. simpl.
   destruct e as [[[k r] mg] t]. unfold ekey. simpl. split.
   - intros [Hin ->].
-    apply (iter_locale_claim _ _ _ _ _ _ H Ems Hpre Hfs Hmt Hex W) in Hin as [-> [-> ->]]. reflexivity.
+    apply (iter_locale_claim _ _ _ _ _ _ Hsub H Ems Hpre Hfs Hmt Hex W) in Hin as [-> [-> ->]]. reflexivity.
   - intro E. inversion E; subst. split; [|reflexivity].
-    apply (iter_locale_claim _ _ _ _ _ _ H Ems Hpre Hfs Hmt Hex W). auto.
+    apply (iter_locale_claim _ _ _ _ _ _ Hsub H Ems Hpre Hfs Hmt Hex W). auto.
 Qed.
 End Claim.
 
